@@ -610,3 +610,103 @@ def session_history(arg: dict) -> dict:
         return json.loads("".join(chunks))
     except Exception as e:  # noqa: BLE001
         return {"driver_error": f"child produced no result: {e}"}
+
+
+# ------------------------------------------------------------------------------------------
+# entry points (C12, C14)
+# ------------------------------------------------------------------------------------------
+def run_entry(arg: dict) -> dict:
+    """Run one entry point.  arg: {entry, src, files, asm_name, missing_source, format, mapping, header, defines, symfile}
+    -> {returned, raised, status, success_text, out (file bytes), err, log, sym (symbol file text)}"""
+    import subprocess
+    wd = _workdir()
+    import shutil
+    sub = os.path.join(wd, "entry")
+    shutil.rmtree(sub, ignore_errors=True)
+    os.makedirs(sub)
+    os.chdir(sub)
+    for name, c in (arg.get("files") or {}).items():
+        mode, data = ("w", c["text"]) if "text" in c else ("wb", bytes(c["bytes"]))
+        with open(name, mode) as fh:
+            fh.write(data)
+    asm = arg.get("asm_name", "main.s")
+    if not arg.get("missing_source"):
+        with open(asm, "w", encoding="utf-8") as fh:
+            fh.write(arg["src"])
+    entry = arg["entry"]
+    fmt = arg.get("format", "ips")
+    mapping = arg.get("mapping", "low")
+    header = bool(arg.get("header"))
+    defines = arg.get("defines") or {}
+    outname = "out." + fmt
+    res = {"returned": "n/a", "raised": False, "status": -999, "success_text": False, "out": None, "err": "", "sym": None}
+    if entry == "cli":
+        cmd = [sys.executable, "-m", "a816.cli", "-o", outname, "-f", fmt, "-m", mapping]
+        if header:
+            cmd.append("--copier-header")
+        cmd.append(asm)   # positional before -D: nargs='+' would swallow it otherwise
+        if defines:
+            cmd += ["-D"] + [f"{k}={v}" for k, v in defines.items()]
+        env = dict(os.environ)
+        env["PYTHONPATH"] = REPO
+        env.pop("A816_VERIF", None)
+        try:
+            p = subprocess.run(cmd, capture_output=True, text=True, timeout=60, env=env, cwd=sub)
+            res["status"] = p.returncode
+            res["log"] = (p.stdout + p.stderr)[-3000:]
+            res["success_text"] = "Success" in (p.stdout + p.stderr)
+        except subprocess.TimeoutExpired:
+            return {"hang": True}
+    else:
+        import logging as _l
+        from a816.cpu.cpu_65c816 import RomType
+        from a816.program import Program
+        from harness.stub import StubWriter
+        buf = io.StringIO()
+        _l.disable(_l.NOTSET)
+        h = _l.StreamHandler(buf)
+        root = _l.getLogger()
+        root.addHandler(h)
+        old = root.level
+        root.setLevel(_l.INFO)
+        try:
+            p = Program()
+            for k, v in defines.items():
+                p.resolver.current_scope.add_symbol(k, v)
+            if entry == "string":
+                if mapping != "low":
+                    p.resolver.rom_type = {"low2": RomType.low_rom_2, "high": RomType.high_rom}[mapping]
+                w = StubWriter()
+                r = p.assemble_string_with_emitter(arg["src"], asm, w)
+                res["returned"] = "none" if r is None else "error"
+                res["err"] = "" if r is None else str(r)
+                res["calls"] = [[a, list(b)] for a, b in w.calls]
+                res["labels"] = [[n, v] for n, v in p.resolver.get_all_labels()] if r is None else []
+            elif entry == "assemble":
+                try:
+                    st = p.assemble(asm, outname, mapping) if arg.get("assemble_takes_mapping") else p.assemble(asm, outname)
+                except TypeError:
+                    st = p.assemble(asm, outname)
+                res["status"] = st
+            elif entry == "patch":
+                res["status"] = p.assemble_as_patch(asm, outname, mapping, header)
+            if arg.get("symfile") and entry != "string":
+                try:
+                    p.exports_symbol_file("out.sym")
+                    res["sym"] = open("out.sym").read()
+                except Exception as e:  # noqa: BLE001
+                    res["sym"] = None
+                    res["symerr"] = f"{type(e).__name__}: {e}"
+        except BaseException as e:  # noqa: BLE001
+            res["raised"] = True
+            res["err"] = f"{type(e).__name__}: {e}"
+        finally:
+            root.removeHandler(h)
+            root.setLevel(old)
+            _l.disable(_l.CRITICAL)
+        res["log"] = buf.getvalue()[-3000:]
+        res["success_text"] = "Success" in buf.getvalue()
+    if entry != "string" and os.path.exists(outname):
+        with open(outname, "rb") as fh:
+            res["out"] = list(fh.read())
+    return res
